@@ -98,7 +98,7 @@ def run(chk):
         stats["corpus_cases"] = len(ccases)
 
     # 2. generated stream
-    n = N[tier]
+    n = chk.size(N["quick"], N["thorough"])
     cases, gens = P.make_cases(pid, seed, n)
     gos = runner.run_go(cases)
     models = P.run_model(cases, gos)
